@@ -63,7 +63,7 @@ func (c *Case) exchangeToks(idn int) []string {
 			fr = c.Framing
 		}
 	}
-	return []string{"id=" + strconv.Itoa(idn), "kind=" + c.modelKind(), "up=" + core.B01(c.Upstream != ""),
+	return []string{"id=" + strconv.Itoa(idn), "log=" + logLabel(c.LogMode), "kind=" + c.modelKind(), "up=" + core.B01(c.Upstream != ""),
 		"uptls=" + core.B01(upstreamFault(c.Upstream) != "" && strings.HasPrefix(c.Upstream, "s")), "close=" + core.B01(c.reqClose()), "minor=" + strconv.Itoa(c.ReqMinor),
 		"head=" + strconv.Itoa(head), "framing=" + fr, "body=" + strconv.Itoa(body)}
 }
@@ -523,6 +523,10 @@ func judge(ctx *core.Ctx, c *Case, o *Obs) {
 		judgeLabel(ctx, c, o)
 	case "reply":
 		judgeReply(ctx, c, o)
+	case "upload":
+		judgeUpload(ctx, c, o)
+	case "accept":
+		judgeAccept(ctx, c, o)
 	default:
 		judgeFault(ctx, c, o)
 	}
@@ -532,6 +536,10 @@ func judgeFault(ctx *core.Ctx, c *Case, o *Obs) {
 	impl := describeObs(o)
 	class := knownClass(c)
 	ctx.Count("via/" + c.Via + map[string]string{"": "", "up": "+upstream"}[c.Upstream] + map[string]string{"": "", "handler": "@handler"}[c.Server])
+	if c.LogMode != "" && c.Kind == "cut" {
+		where := map[bool]string{true: "complete", false: map[bool]string{true: "head", false: "body"}[c.K < len(c.head())]}[c.K < 0]
+		ctx.Count("log-mode/" + c.LogMode + "/" + c.Framing + "/" + where + map[bool]string{true: "/rst", false: "/fin"}[c.Reset] + map[string]string{"": "", "handler": "@handler"}[c.Server])
+	}
 	if c.Kind == "dial" {
 		party := "origin"
 		if upstreamFault(c.Upstream) != "" {
